@@ -290,13 +290,37 @@ class AdminTwin(c14.ServerModel):
         tw.a.close()
 
     def ops(self, tw):
-        return super().ops(tw) + [('tick',)]
+        return super().ops(tw) + [('tick',), ('admin-toggle',)]
+
+    def _admin_on(self, tw):
+        w = tw.a
+        return w.admin_t is not None and \
+            w.sid_of(w.admin_t, ADMIN) is not None
 
     def apply(self, tw, op):
         if op[0] == 'tick':
             self._do(tw, op, lambda w: (tick(w), ('ok', None))[1])
             return
+        if op[0] == 'admin-toggle':
+            # an administrator logs in / leaves while application clients
+            # come and go (instrumented side only; the plain server has no
+            # such namespace)
+            w = tw.a
+            if self._admin_on(tw):
+                w.recv_packet(w.admin_t, 1, ADMIN)
+            else:
+                if w.admin_t is None:
+                    w.admin_t = w.new_transport()
+                w.recv_packet(w.admin_t, 0, ADMIN, None, dict(CRED))
+                if w.sid_of(w.admin_t, ADMIN) is None:
+                    self._bad(tw, 'admin/login', f'{op}: the administrator '
+                              f'could not log in')
+            self.compare(tw, op)
+            return
         super().apply(tw, op)
+
+    def canon(self, tw):
+        return (super().canon(tw), self._admin_on(tw))
 
     def probe(self, tw):
         # one reporting interval elapses at every state (flushes whatever
